@@ -236,7 +236,8 @@ def replay(prop, data):
     rec = data["record"]
     fl = rec["fl"]
     rep = Report(prop, "quick", 0)
-    run_states(rep, prop, [rec["st"]], fl, {"all_assign_max": 5, "forms": "all"}, "replay")
+    rep.findings = []   # a replay reports what it sees; known findings are listed by the check itself
+    run_states(rep, prop, [rec["st"]], fl, {"all_assign_max": 5, "forms": "all", "full_max": 4, "D": 3}, "replay")
     bad = len(rep.violations)
     for m, r in rep.violations[:10]:
         print(f"  clause={m['clause']} args={m['why']}")
